@@ -385,6 +385,7 @@ func (m *matchReplayer) replayTable(v matchVec, pats []string, rng *rand.Rand) {
 		tsrRel := m.aspect != "direct" || presc.direct()
 		iterChk("Iter.Reverse", obtainIterReverse(it, m.method, host, path), wantPlain, dirRel || presc.Tsr)
 		iterChk("Txn(read).Iter.Reverse", obtainIterReverse(rtx.Iter(), m.method, host, path), wantPlain, dirRel || presc.Tsr)
+		iterChk("Txn(write, uncommitted).Iter.Reverse", obtainIterReverse(wtx.Iter(), m.method, host, path), wantPlain, dirRel || presc.Tsr)
 		iterChk("Iter.Reverse(ignore-ts)", obtainIterReverse(itIgn, m.method, host, path), wantIgn, tsrRel)
 		// ServeHTTP on the plain router: a route handler runs exactly for a direct match
 		got, _, _ := obtainServe(plain, m.method, host, path)
